@@ -43,6 +43,7 @@ def generate(tier, rng):
     base = strcorpus.build_enums(rng, tier, 'C16', unit_only=True, with_default='some', with_err='some',
                                  passes=3 if tier == 'quick' else 10, per_enum=6)
     base += special_enums()
+    base += strcorpus.build_soup(rng, tier, 'C16', unit_only=True, n=20 if tier == 'quick' else 200)
     info = strcorpus.query_model(base)
     c = Corpus()
     for e in base:
